@@ -891,7 +891,10 @@ static void run_case(uint64_t) {
         std::unique_ptr<Grid> X, Y;
         if (op.uses_b && ai == bi) { X.reset(new Grid(A)); Y.reset(new Grid(A)); }
         auto preflight = [&](Grid& x, const Grid& y, const char* who) -> bool {
-          bool eu = unmarked_empty(x, SA.L) || (op.uses_b && unmarked_empty(y, SB.L));
+          // add_(recycled_)grid_generators on an empty receiver that is not marked empty indexes an empty row vector;
+          // --kv preflight_all=1 extends the net to every mutator on such operands
+          static const bool all = hx::opt().geti("preflight_all", 0) != 0;
+          bool eu = (all || op.name == "add_grid_generators" || op.name == "add_recycled_grid_generators") && (unmarked_empty(x, SA.L) || (op.uses_b && unmarked_empty(y, SB.L)));
           bool sx = op.name == "simplify_using_context_assign" && (SA.nonunit || SB.nonunit);   // reaches PPL_UNREACHABLE through relation_with(Congruence)
           if (!eu && !sx) return true;
           hx::count("preflight"); std::string rep;
